@@ -445,6 +445,8 @@ class Twist3(SMTwist):
             >>> t = Twist3([1, 2, 3, 4, 5, 6])
             >>> t.v
         """
+        if len(self) > 1:
+            return np.array([x[:3] for x in self.data])
         return self.data[0][:3]
 
     @property
@@ -466,6 +468,8 @@ class Twist3(SMTwist):
             >>> t.w
 
         """
+        if len(self) > 1:
+            return np.array([x[3:6] for x in self.data])
         return self.data[0][3:6]
 
     # -------------------- variant constructors ----------------------------#
@@ -1253,6 +1257,8 @@ class Twist2(SMTwist):
             >>> t.v
 
         """
+        if len(self) > 1:
+            return np.array([x[:2] for x in self.data])
         return self.data[0][:2]
 
     @property
@@ -1274,6 +1280,8 @@ class Twist2(SMTwist):
             >>> t.w
 
         """
+        if len(self) > 1:
+            return np.array([x[2] for x in self.data])
         return self.data[0][2]
 
     # -------------------------  methods -------------------------------#
